@@ -22,6 +22,7 @@ import (
 	"strings"
 
 	"github.com/aergoio/aergo/v2/chain"
+	"github.com/aergoio/aergo/v2/consensus/impl/dpos"
 	"github.com/aergoio/aergo/v2/contract/name"
 	"github.com/aergoio/aergo/v2/contract/system"
 	"github.com/aergoio/aergo/v2/internal/enc/base58"
@@ -371,6 +372,11 @@ func (s *nsess) reorg(k int, blocks [][]ntx, bad int) {
 		panic("reorg: bad shape")
 	}
 	parent := s.main[rootIdx]
+	if lib := dpos.VerifC15LibNo(s.n.cons); parent.BlockNo() < lib {
+		// the branch root is below the last irreversible block: the real node refuses such blocks (by design)
+		s.run.Count("node-ev:reorg:skipped-below-lib")
+		return
+	}
 	var side []*types.Block
 	var incs [][]ntx
 	for _, txs := range blocks {
